@@ -23,7 +23,7 @@ inline rc::Gen<FrameT> frame_t_gen() {
         t.gen = (int)*gx::bnd({0, 1, 0xFFFF}, 0, 0xFFFF, 1, 1);
         t.trunc = *gx::chance(25) ? (int)*gx::bnd({0, 1, 13, 14, 17, 18, 31, 32, 33, 34, 35, 36, 46}, 0, 9216, 2, 1) : -1;
         t.pad_to_mtu = (int)*gx::pick({0, 0, 1});
-        t.pad_fill = (int)*gx::pick({0, 1, 1, 2, 3});
+        t.pad_fill = (int)*gx::pick({0, 1, 1, 2, 3, 4});
         t.ethertype = *gx::chance(6) ? (int)*gx::pick({0x8100, 0x8100, 0x88A8, 0x0800, 0x86DD, 0xD988, 0x88D8, 0x0000, 0xFFFF}) : -1;
         int nm = *gx::chance(25) ? (int)*gx::range<int64_t>(1, 4) : 0;
         for (int i = 0; i < nm; i++) t.mut.push_back({(int)*gx::bnd({12, 13, 14, 15, 16, 17, 30, 31, 32, 33, 34, 35}, 0, 9215, 2, 1), (int)*gx::pick({0, 1, 0x7F, 0x80, 0xFF, 0x55})});
